@@ -68,4 +68,7 @@ def translated : List String := ["HtlcInitGenesis_cond_1(htlc_State)", "HtlcInit
 /-- every rejecting guard of the translated functions, in source order -/
 def guards : List String := ["HtlcInitGenesis: err := types.ValidateGenesis(data); err != nil", "HtlcInitGenesis: err := k.SetParams(ctx, data.Params); err != nil", "HtlcInitGenesis: id, err := hex.DecodeString(htlc.Id); err != nil", "HtlcInitGenesis: htlc.State != types.Open", "HtlcInitGenesis: err := k.ValidateLiveAsset(ctx, htlc.Amount[0]); err != nil", "HtlcInitGenesis: !supply.IncomingSupply.Amount.Equal(incomingSupply)", "HtlcInitGenesis: !supply.OutgoingSupply.Amount.Equal(outgoingSupply)", "HtlcInitGenesis: limit, err := k.GetSupplyLimit(ctx, supply.CurrentSupply.Denom); err != nil", "HtlcInitGenesis: supply.CurrentSupply.Amount.GT(limit.Limit)", "HtlcInitGenesis: supply.IncomingSupply.Amount.GT(limit.Limit)", "HtlcInitGenesis: supply.IncomingSupply.Amount.Add(supply.CurrentSupply.Amount).GT(limit.Limit)", "HtlcInitGenesis: supply.OutgoingSupply.Amount.GT(limit.Limit)", "MtInitGenesis: err := types.ValidateGenesis(data); err != nil", "MtInitGenesis: addr, err := sdk.AccAddressFromBech32(o.Address); err != nil", "MtInitGenesis: err := k.IncreaseMTSupply(ctx, d.DenomId, b.MtId, b.Amount); err != nil", "MtInitGenesis: err := k.AddBalance(ctx, d.DenomId, b.MtId, b.Amount, addr); err != nil", "CoinswapInitGenesis: err := types.ValidateGenesis(genState); err != nil", "CoinswapInitGenesis: err := k.SetParams(ctx, genState.Params); err != nil", "FarmInitGenesis: err := types.ValidateGenesis(data); err != nil", "FarmInitGenesis: !exist", "FarmInitGenesis: err := k.SetParams(ctx, data.Params); err != nil"]
 
+/-- every statement of the translated functions executed for its effect, with its nesting depth, in source order -/
+def effects : List String := ["HtlcInitGenesis: d0 k.SetPreviousBlockTime(ctx, data.PreviousBlockTime)", "HtlcInitGenesis: d1 k.SetAssetSupply(ctx, supply, supply.CurrentSupply.Denom)", "HtlcInitGenesis: d2 k.SetHTLC(ctx, htlc, id)", "HtlcInitGenesis: d2 k.AddHTLCToExpiredQueue(ctx, htlc.ExpirationHeight, id)", "HtlcInitGenesis: d1 k.SetHTLC(ctx, htlc, id)", "HtlcInitGenesis: d1 k.AddHTLCToExpiredQueue(ctx, htlc.ExpirationHeight, id)", "MtInitGenesis: d0 k.SetDenomSequence(ctx, uint64(len(data.Collections)+1))", "MtInitGenesis: d1 k.SetDenom(ctx, *c.Denom)", "MtInitGenesis: d2 k.IncreaseDenomSupply(ctx, c.Denom.Id)", "MtInitGenesis: d2 k.SetMT(ctx, c.Denom.Id, m)", "MtInitGenesis: d0 k.SetMTSequence(ctx, mtSequence)", "CoinswapInitGenesis: d0 k.SetStandardDenom(ctx, genState.StandardDenom)", "CoinswapInitGenesis: d0 k.setSequence(ctx, genState.Sequence)", "CoinswapInitGenesis: d1 k.setPool(ctx, &poolCopy)", "FarmInitGenesis: d2 k.SetRewardRule(ctx, pool.Id, r)", "FarmInitGenesis: d1 k.SetPool(ctx, pool)", "FarmInitGenesis: d2 k.EnqueueActivePool(ctx, pool.Id, pool.EndHeight)", "FarmInitGenesis: d1 k.SetFarmInfo(ctx, farmInfo)", "FarmInitGenesis: d1 k.SetEscrowInfo(ctx, info)", "FarmInitGenesis: d0 k.SetSequence(ctx, data.Sequence)"]
+
 end Irismod.Gen.PureGenesis
